@@ -30,6 +30,10 @@ type Rule struct {
 	TagCond  string `json:"tagcond,omitempty"`
 	// NoSal: the rule header has no salience clause (Sal is 0 then); NoDesc: no description.
 	NoSal  bool `json:"nosal,omitempty"`
+	// TagDecl: the tag store is written with ":=" instead of "=" (the same store)
+	TagDecl bool `json:"tagdecl,omitempty"`
+	// SalZeros: number of leading zeros in the spelling of the salience (salience 007, -010)
+	SalZeros int `json:"salzeros,omitempty"`
 	NoDesc bool `json:"nodesc,omitempty"`
 }
 
